@@ -345,3 +345,34 @@ Example C12_source_example :
   src_init_observations (Some [5]) None 1 = Ok ([5], [true]) /\
   src_init_plate_check [[48]; [49]; [48]] [true; false; false] = Err 2.
 Proof. vm_compute. repeat split; reflexivity. Qed.
+
+(* ---- the command-line wrappers reveal_plate.main and extract_screen_metadata.main is what the source says NOW ----
+   `src_cli_reveal_plate` / `src_cli_extract_screen_metadata` are the whole functions main of /repo's current
+   batchie/cli/reveal_plate.py / extract_screen_metadata.py, re-translated on every run (configurations CLI_REVEAL_PLATE /
+   CLI_EXTRACT_METADATA -> Generated/SrcCli.v).
+   Model/Cli.v: the parsed arguments are a record of the plain argparse results (get_args() is not translated), `L` is a
+   record of the library functions the wrapper calls over abstract types (each component stands for the library function
+   of that name with its parameter list; `*_load_*` = what loading the file at a path yields), a main() denotes the list
+   of (path, content) files it writes, Err = the exception that ends it.  The links hold for EVERY such record. *)
+From Batchie Require Lib.PyRt Model.Cli Generated.SrcCli Proofs.C12SourceCli Proofs.C12SourceCliReveal.
+Theorem C12_model_is_source_cli_reveal_plate : forall (Scr : Type) (L : Cli.rp_lib Scr) (a : Cli.rp_args),
+  SrcCli.src_cli_reveal_plate Scr L a
+  = Cli.cli_reveal_plate L a.
+Proof. exact C12SourceCli.src_cli_reveal_plate_is_model. Qed.
+Print Assumptions C12_model_is_source_cli_reveal_plate.
+
+Theorem C12_model_is_source_cli_extract_screen_metadata : forall (Scr Pl : Type) (L : Cli.em_lib Scr Pl) (a : Cli.em_args),
+  SrcCli.src_cli_extract_screen_metadata Scr Pl L a
+  = Cli.cli_extract_screen_metadata L a.
+Proof. exact C12SourceCli.src_cli_extract_screen_metadata_is_model. Qed.
+Print Assumptions C12_model_is_source_cli_extract_screen_metadata.
+
+(* instance over this property's vocabulary, the library call standing for the TRANSLATED reveal_plates
+   (Generated/SrcReveal.v): load, the model's reveal_plates with the mappings carried, save *)
+Theorem C12_model_is_source_cli_reveal_plate_reveal : forall (load : Cli.path -> result screen) (a : Cli.rp_args),
+  SrcCli.src_cli_reveal_plate screen (Cli.mk_rp_lib load src_reveal_plates) a
+  = dor s <- load (Cli.rp_screen a);
+    dor s' <- reveal_plates (carry_mappings true) s (Cli.rp_plate_id a);
+    Ok [(Cli.rp_output a, s')].
+Proof. exact C12SourceCliReveal.src_cli_reveal_plate_reveal. Qed.
+Print Assumptions C12_model_is_source_cli_reveal_plate_reveal.
